@@ -1,6 +1,7 @@
 """C15 — human-readable formatters are total (totality clause only)."""
 from .. import common as K
 from .. import ledger as Lg
+from ..facts import operand_local, const_val
 
 EXPLANATION = ("Decides totality only: no unaudited panic edge is reachable from the seven Display impls of format.rs "
                "(arithmetic asserts with overflow checks forced on, indexing, Duration operators, unwraps). One structural faithfulness clause: "
@@ -16,6 +17,7 @@ def run(ctx, crate):
     ctx.floor("R-FORMAT-TOTAL", len(sc), 7, crate.config, "Display impls in format.rs")
     rule_count_exact(ctx, crate)
     rule_int_digits_untrimmed(ctx, crate)
+    rule_bytes_unit_delegated(ctx, crate)
 
 
 def rule_count_exact(ctx, crate, rule="R-COUNT-EXACT"):
@@ -64,3 +66,64 @@ def rule_int_digits_untrimmed(ctx, crate, rule="R-COUNT-EXACT"):
                       "the grouped integer digits are the formatted digits, with nothing removed",
                       "the integer digits pass through %s before grouping: significant digits (e.g. trailing zeros of 1200) can be removed" % lossy, cfg)
     ctx.floor(rule, n, 2, cfg, "digit-grouping loops (HumanCount, HumanFloatCount)")
+
+
+def rule_bytes_unit_delegated(ctx, crate, rule="R-BYTES-UNIT-DELEGATED"):
+    """"HumanBytes, BinaryBytes and DecimalBytes print value and unit with the largest fitting prefix": the choice of the unit
+    is made by `NumberPrefix::binary` (1024-based) for HumanBytes/BinaryBytes and by `NumberPrefix::decimal` (1000-based) for
+    DecimalBytes, and by nothing else: the byte count itself is never compared with a constant in these formatters (a
+    private helper shared by them is inlined before this check, so a threshold hidden in it is seen here)."""
+    cfg = crate.config
+    want = {"HumanBytes": "binary", "BinaryBytes": "binary", "DecimalBytes": "decimal"}
+    n = 0
+    for ty, ctor in sorted(want.items()):
+        b = K.find_one(ctx, crate, rule, r"<format::%s as std::fmt::Display>::fmt" % ty)
+        if not b:
+            continue
+        n += 1
+        direct = b.calls(r"number_prefix::NumberPrefix::<\\w+>::%s" % ctor, r"number_prefix::NumberPrefix::<.*>::%s" % ctor)
+        other = b.calls(r"number_prefix::NumberPrefix::<.*>::%s" % ("decimal" if ctor == "binary" else "binary"))
+        fnptr = wrongptr = False
+        for blk in b.blocks:
+            for o in _consts_of(blk):
+                f = o.get("fn") or ""
+                if f.startswith("number_prefix::NumberPrefix") and f.endswith("::" + ctor):
+                    fnptr = True
+                if f.startswith("number_prefix::NumberPrefix") and f.endswith("::" + ("decimal" if ctor == "binary" else "binary")):
+                    wrongptr = True
+        # delegation to a sibling wrapper with the same base, built from the same count
+        deleg = False
+        for sib, sc in want.items():
+            if sib != ty and sc == ctor:
+                for c in b.calls(r"<format::%s as std::fmt::Display>::fmt" % sib):
+                    sl = b.slice_args(c, [0])
+                    if sl.has_field("0", "format::" + ty) and any(a[0] == "agg" and a[1] == "format::" + sib for a in sl.atoms):
+                        deleg = True
+        ctx.check((bool(direct) or fnptr or deleg) and not other and not wrongptr, rule, "prefix-base:%s" % ty, b.name, K.fn_loc(b),
+                  "%s chooses its unit with NumberPrefix::%s" % (ty, ctor), "%s does not (only) use NumberPrefix::%s to choose its unit" % (ty, ctor), cfg)
+        cmps = []
+        for sb, t in b.switches():
+            l = operand_local(t["op"])
+            for d in b.defs().get(l, ()) if l is not None else ():
+                if d["kind"] == "assign" and d["rv"]["k"] == "bin" and d["rv"]["op"] in ("Lt", "Le", "Gt", "Ge", "Eq", "Ne"):
+                    for side, oth in ((d["rv"]["a"], d["rv"]["b"]), (d["rv"]["b"], d["rv"]["a"])):
+                        if b.slice(side, at=sb, through_calls=False).has_field("0", "format::" + ty) and isinstance(const_val(oth), (int, float, str)):
+                            base = 1000 if ctor == "decimal" else 1024
+                            own_boundary = d["rv"]["op"] in ("Lt", "Ge") and side is d["rv"]["a"] and str(const_val(oth)) in (str(base), str(float(base)))
+                            if not own_boundary:       # `bytes < base` is the unit's own first boundary (a harmless fast path)
+                                cmps.append((t.get("line", 0), const_val(oth)))
+        ctx.check(not cmps, rule, "no-own-threshold:%s" % ty, b.name, K.fn_loc(b), "the byte count is not compared with a constant of the formatter's own",
+                  "%s compares the byte count with the constant %s itself: a unit boundary other than the %s one decides the output" % (
+                      ty, cmps[0][1] if cmps else "", "1000-based" if ctor == "decimal" else "1024-based"), cfg)
+    ctx.floor(rule, n, 3, cfg, "byte formatters")
+
+
+def _consts_of(x):
+    if isinstance(x, dict):
+        if x.get("k") == "const":
+            yield x
+        for v in x.values():
+            yield from _consts_of(v)
+    elif isinstance(x, list):
+        for v in x:
+            yield from _consts_of(v)
